@@ -159,7 +159,8 @@ def run(ctx):
         "a role tree is what VerifRTLoad builds: the repository's YAML unmarshalling + ProcessTemplates (include roles resolved "
         "from memory, no repository manager / task manager); iterator roles are out of scope (GetRoles flattens them)",
         "leaves are told: tasks %s, calls %s, statuses %s in the exhaustive model (the values the callers in core/ send); "
-        "the recorded runs and the trace validation use the full carriers" % (TASK_STATES, CALL_STATES, REAL_STATUSES),
+        "the recorded runs and the trace validation use the full carriers; the two-update concurrency runs use three healthy "
+        "states + ERROR (healthy states are interchangeable in State.X)" % (TASK_STATES, CALL_STATES, REAL_STATUSES),
         "an update is atomic per critical section: leaf merge, one aggregator merge (under that role's lock), the unlocked "
         "re-read of the cache + call of the parent, delivery to the ParentAdapter; forced interleavings have this granularity",
         "concurrent = two updates of different leaves in flight (any number of such episodes in the recorded runs, %s in the "
@@ -178,9 +179,8 @@ def run(ctx):
     alg = r.records("ALGEBRA")
     if not r.no_error or not alg:
         ctx.save_debug(r, "tlc_algebra.txt")
-        if "Assumption" in r.out and "is false" in r.out:
-            # the transcribed tables do not have the algebra the property states
-            ctx.add_violation({"inv": "Algebra", "cls": "model", "detail": vlib.tail(r.out, 5)})
+        # (an ASSUME that fails means the TRANSCRIBED tables lack the algebra: model trouble; the real tables are
+        # compared with the transcription pair by pair by the monitor - ProductTable)
         raise vlib.Inconclusive("algebra evaluation failed: " + vlib.tail(r.out, 8))
     ctx.extra["algebra"] = {"states": alg[0][1], "statuses": alg[0][2], "perm_fold_evaluations_state": alg[0][3],
                             "perm_fold_evaluations_status": alg[0][4],
@@ -272,7 +272,8 @@ def _model_check(ctx, quick, names, dead, live, dead_open, stale_open, mc, must_
     must_hold(mc(oi_shapes, ["status"], 1, 0, ["OrderIndependent"]), "order independence (status)")
     # 1e two concurrent updates, state
     con_shapes = ["S03", "S10"] if quick else live
-    con_states = ["CONFIGURED", "RUNNING", "ERROR"] if quick else TASK_STATES
+    # (the healthy states are interchangeable in XS: three of them and ERROR are enough for two concurrent updates)
+    con_states = ["CONFIGURED", "RUNNING", "ERROR"] if quick else TASK_STATES[:4]
     if stale_open:
         must_hold(mc(con_shapes, ["state"], 2, 1, ["ErrorNotLost"], task_states=con_states), "concurrent state: ErrorNotLost")
         rf = mc(con_shapes, ["state"], 2, 1, ["FoldStateInv"], task_states=con_states)
